@@ -507,6 +507,41 @@ def _r11_345(ctx, P):
     except Unmodelled as e:
         ctx.unknown("R11.5", "dummy names equal to real axis names, bound crosswise", str(e))
 
+    # per-axis mappings of rules / fill values are keyed by REAL axis names: a real axis that happens to be called like a dummy
+    # name of the signature (every predefined ufunc says "X") keeps its own entry - only boundary_width speaks the signature's names
+    def _real(opt, a, default):
+        return opt.get(a, default) if isinstance(opt, dict) else opt
+
+    for oname, b_opt, f_opt in (("partial mappings naming the other real axis", {"X": "extend"}, {"X": 7.0}),
+                                ("total mappings listing the operated axis first", {"Y": "fill", "X": "extend"}, {"Y": 1.0, "X": 7.0}),
+                                ("total mappings listing the operated axis last", {"X": "extend", "Y": "fill"}, {"X": 7.0, "Y": 1.0})):
+        inst = f"real axis called like the dummy name, {oname}"
+        try:
+            import copy as _copy
+            outs = run_apply(P, "(X:center)->(X:left)", [("Y",)], args=lambda: (make_da("da", [Sym("t"), dimsym("Y", "center"), dimsym("X", "center")]),),
+                             boundary_width={"X": (1, 0)}, grid=grid_xy, boundary=_copy.deepcopy(b_opt), fill_value=_copy.deepcopy(f_opt))
+            bad = None
+            for o in outs:
+                pads = _events(o, "pad")
+                if o.kind != "return" or not pads:
+                    bad = f"{o.kind} {o.value}"
+                for pd in pads:
+                    NOTHING = object()
+                    for a in ("X", "Y"):
+                        for what, got, want in (("boundary", pd[2], b_opt), ("fill_value", pd[3], f_opt)):
+                            g, w = _real(got, a, NOTHING), _real(want, a, NOTHING)
+                            if g is None:
+                                g = NOTHING
+                            if g is not w and g != w:
+                                bad = bad or (f"the caller's {what}={want!r} (keyed by real axis names; the ufunc's dummy X is bound to the real axis Y) reaches pad() as "
+                                              f"{got!r}: the entry of the real axis {a} is " + ("lost" if g is NOTHING else "not the caller's"))
+            if bad:
+                ctx.report("R11.5", fi, inst, bad)
+            else:
+                ctx.ok("R11.5", inst, "rule / fill value mappings reach pad() keyed as the caller keyed them")
+        except Unmodelled as e:
+            ctx.unknown("R11.5", inst, str(e))
+
     # -- R11.4 guards: must raise, and before anything is padded or applied
     def refuse(name, signature, axis, args, other=None, bw=None):
         try:
